@@ -1,11 +1,11 @@
 #!/bin/sh
 # retrial_all.sh [ids...]: re-applies every kept seeded change to /repo (one at a time, reverted afterwards)
-# and runs the checks its meta.json names; prints one line per change.  Never run this while a
-# background `vp run` is active (those runs read /repo itself).
+# and runs the checks its meta.json names (PRIMARY_ONLY=1: only the first one); prints one line per change.
+# Never run this while a background `vp run` / thorough run is active (those read /repo itself).
 cd /verif || exit 2
 IDS="$@"
 [ -z "$IDS" ] && IDS=$(ls seeded)
 for id in $IDS; do
-  checks=$(python3 -c "import json,sys; print(' '.join(json.load(open('seeded/$id/meta.json'))['caught_by']))")
+  checks=$(python3 -c "import json,os; c=json.load(open('seeded/$id/meta.json'))['caught_by']; print(' '.join(c[:1] if os.environ.get('PRIMARY_ONLY') else c))")
   sh harness/try_mutant.sh /verif/seeded/$id $checks 2>&1 | grep -v conda
 done
